@@ -47,6 +47,8 @@ pub struct RestartCase {
     pub second_spec: RunSpec,
     /// number of individuals the evolution strategy of the second solve returns (1 = the public default)
     pub second_returns: usize,
+    /// the second solve is seeded with two solutions: a poor one (no tour, every job unassigned) first, the stored one second
+    pub two_seeds: bool,
 }
 
 pub fn make_case(seed: u64, tier: Tier) -> RestartCase {
@@ -61,7 +63,8 @@ pub fn make_case(seed: u64, tier: Tier) -> RestartCase {
         second_spec.stalls.push((p.range(1, 3000) as u64, *p.pick(&[250_000_000u64, 5_000_000_000, 400_000_000_000])));
     }
     let second_returns = *p.pick(&[1usize, 1, 2, 3, 6, 9]);
-    RestartCase { first, second_config: c.config, second_spec, second_returns }
+    let two_seeds = p.chance(0.3);
+    RestartCase { first, second_config: c.config, second_spec, second_returns, two_seeds }
 }
 
 /// `via_solver`: the identical (deterministic) execution, but through the real entry point `Solver::solve`, which selects
@@ -100,7 +103,25 @@ fn second_run(case: &RestartCase, stored: &str, via_solver: bool) -> crate::kern
         let debug = std::env::var_os("VSIM_RESTART_DEBUG").is_some();
         // how many individuals the evolution strategy hands back (the public default is one; the solver returns the first,
         // best one whatever the strategy returns)
-        let builder = vrp_cli::extensions::solve::config::create_builder_from_config(problem.clone(), vec![seeded_ctx], &config);
+        // two seeds: every supplied solution must reach the population, also when the budget for building initial solutions
+        // is already used up (the configured initial quota may be zero). Only when the configuration admits two initial
+        // solutions (the reader keeps `initial.alternatives.maxSize` of the supplied ones).
+        let admits_two = case.second_config["evolution"]["initial"]["alternatives"]["maxSize"].as_u64().is_some_and(|n| n >= 2);
+        let mut seeds = vec![];
+        if case.two_seeds && admits_two {
+            let poor = sys::monitor(|| {
+                let mut doc: serde_json::Value = serde_json::from_str(stored).unwrap_or_default();
+                let ids: Vec<serde_json::Value> = case.first.problem["plan"]["jobs"].as_array().into_iter().flatten().filter_map(|j| j["id"].as_str()).map(|id| serde_json::json!({ "jobId": id, "reasons": [{ "code": "NO_REASON_FOUND", "description": "unknown" }] })).collect();
+                doc["tours"] = serde_json::json!([]);
+                doc["unassigned"] = serde_json::Value::Array(ids);
+                serde_json::to_string(&doc).unwrap_or_default()
+            });
+            if let Ok(solution) = read_init_solution(BufReader::new(poor.as_bytes()), problem.clone(), environment.random.clone()) {
+                seeds.push(InsertionContext::new_from_solution(problem.clone(), (solution, None), environment.clone()));
+            }
+        }
+        seeds.push(seeded_ctx);
+        let builder = vrp_cli::extensions::solve::config::create_builder_from_config(problem.clone(), seeds, &config);
         let builder = match (builder, case.second_returns) {
             (Ok(b), n) if n > 1 => Ok(b.with_strategy(Box::new(vrp_core::rosomaxa::evolution::strategies::Iterative::new(vrp_core::solver::get_default_heuristic(problem.clone(), environment.clone()), n)))),
             (b, _) => b,
@@ -207,6 +228,7 @@ fn record(case: &RestartCase, seed: u64) -> CaseRecord {
         rec.taint = true;
     }
     rec.count("faults.second_run_clock_stalls_fired", out2.stalls_fired);
+    rec.count("restart.second_runs_with_two_seeds", (case.two_seeds && case.second_config["evolution"]["initial"]["alternatives"]["maxSize"].as_u64().is_some_and(|n| n >= 2)) as u64);
     rec.count(&format!("scheduler.second.strategy.{}", case.second_spec.strategy.name()), 1);
     let mut push = |rec: &mut CaseRecord, rule: &str, sig: String, msg: String| rec.issues.push(IssueRec { prop: "C08".into(), rule: rule.into(), sig, msg });
     let population = case.second_config["evolution"]["population"]["type"].as_str().unwrap_or("default").to_string();
@@ -339,12 +361,13 @@ impl Scenario for RestartScenario {
         doc["second_config"] = c.second_config;
         doc["second_spec"] = c.second_spec.to_json();
         doc["second_returns"] = json!(c.second_returns);
+        doc["two_seeds"] = json!(c.two_seeds);
         doc
     }
     fn replay(&self, doc: &Value) -> CaseRecord {
         let seed = doc.get("case_seed").and_then(|s| s.as_u64()).unwrap_or(0);
         match (W1Case::from_json(doc), doc.get("second_config"), doc.get("second_spec").and_then(RunSpec::from_json)) {
-            (Some(first), Some(cfg), Some(spec)) => record(&RestartCase { first, second_config: cfg.clone(), second_spec: spec, second_returns: doc.get("second_returns").and_then(|n| n.as_u64()).unwrap_or(1) as usize }, seed),
+            (Some(first), Some(cfg), Some(spec)) => record(&RestartCase { first, second_config: cfg.clone(), second_spec: spec, second_returns: doc.get("second_returns").and_then(|n| n.as_u64()).unwrap_or(1) as usize, two_seeds: doc.get("two_seeds").and_then(|b| b.as_bool()).unwrap_or(false) }, seed),
             _ => CaseRecord { harness_error: Some("replay file is not a restart case".into()), ..Default::default() },
         }
     }
